@@ -10,22 +10,33 @@ C03 — Direct-sampling contour edges are (1-alpha)-quantile tangent lines of th
 
 Clause → theorem (model: `Model/DirectSampling.lean`, tied to contours.py by the bit-exact
 correspondence check in `harness/c03.py`)
+  HEADLINE, composed for the pipeline `vertices ∘ tangentLines` the driver op `c03ds` runs: every
+  edge (closing one included) lies on the line with normal direction (j+1) mod N whose offset is the
+  (1-alpha)-quantile of the projected sample, and a fraction alpha of the SAMPLE POINTS lies beyond it
+                                                          edge_on_quantile_line
+  pieces:
   every edge (incl. the closing one) lies on one line     vertex_on_both_lines, edge_on_tangent_line,
                                                           vertex_isSome_iff (guard: lines not parallel)
   that line: normal = direction j, offset = quantile      tangentLines_spec
   quantile between two order statistics                   quantile7_between_order_stats
   a fraction alpha of the sample lies beyond it           exceed_count_bounds, exceed_fraction_bounds
   successive normals advance by exactly the step          direction_value, successive_normals_advance_by_step
-  ... and cover the full circle once                      normals_cover_circle_once (index form),
-                                                          closing_advance_is_step (N*deg = 360; plain algebra),
+  ... and cover the full circle once                      closing_pair_advances_by_step (on the direction grid:
+                                                          last direction + step = first direction - 2π, given
+                                                          N*deg = 360), each_direction_carries_exactly_one_edge
+                                                          (j ↦ (j+1) mod N hits every line index once);
+                                                          cyclicPairs_spec (generic list fact: pair j = (l[j], l[j+1 mod N])),
+                                                          closing_advance_is_step (plain algebra used by the first),
                                                           arange_exact_count + oneTurn_exact_count: over an exact
                                                           field the arange has N+1 entries, the slice N directions
      NUMBER of directions at Float (hypothesis `hn` of direction_value / oneTurn_length: the arange has at
      least N+1 entries after rounding)                    observed per run (model grid = numpy grid, oracle M = N)
-  n = int(100/alpha)                                      default_n (definitional: conclusion = floor hypothesis),
-                                                          default_n_unique (the only k with k ≤ 100/alpha < k+1)
+  n = int(100/alpha)                                      default_n_unique (the only k with k ≤ 100/alpha < k+1);
+                                                          default_n_trivial (conclusion = floor hypothesis; `defaultN`
+                                                          is not run by the driver: the harness compares the size of
+                                                          the drawn sample with int(100/alpha))
   first direction / coordinates[0]                        not fixed by the property (correspondence only)
-  the code before the repair violates the closing clause  oldPairs_spec, closing_pair_is_degenerate
+  the code before the repair violates the closing clause  oldPairs_spec, closing_pair_is_degenerate (counter-model)
 
 Carrier: any field (linear ordered where order matters).  `cos`/`sin` are uninterpreted
 functions (`cosT`, `sinT`), the floor function `fl` is a parameter whose floor property is a
@@ -157,13 +168,32 @@ theorem vertex_isSome_iff {α} [Field α] [DecidableEq α] (ls : List (TLine α)
 
 /-! ### the pairing of lines: each direction once, the circle closed -/
 
-/-- **index form of "the normals cover the circle once"**: the `N` vertices use the line
-pairs `(j, j+1 mod N)`, `j = 0 … N-1`, each `j` exactly once (position `j` of the list). -/
-theorem normals_cover_circle_once {β} (l : List β) :
+/-- (generic list fact, the specification of `cyclicPairs`; the index form of "the normals cover
+the circle once") the `N` vertices use the line pairs `(j, j+1 mod N)`, `j = 0 … N-1`, position `j`
+of the list holding pair `j`. -/
+theorem cyclicPairs_spec {β} (l : List β) :
     (cyclicPairs l).length = l.length ∧
     ∀ j (hj : j < l.length),
       (cyclicPairs l)[j]? = some (l[j], l[(j + 1) % l.length]'(Nat.mod_lt _ (by omega))) :=
   ⟨cyclicPairs_length l, fun j hj => cyclicPairs_get l j hj⟩
+
+/-- **every direction is the normal of exactly one edge**: edge `j` (from vertex `j` to vertex
+`j+1 mod N`) lies on line `(j+1) mod N` (`edge_on_tangent_line`); `j ↦ (j+1) mod N` hits every
+line index `i < N` exactly once, so the `N` edges use the `N` directions once each. -/
+theorem each_direction_carries_exactly_one_edge (N i : Nat) (hi : i < N) :
+    ∃! j, j < N ∧ (j + 1) % N = i := by
+  rcases Nat.eq_zero_or_pos i with h0 | hpos
+  · subst h0
+    refine ⟨N - 1, ⟨by omega, by rw [show N - 1 + 1 = N by omega]; exact Nat.mod_self N⟩, ?_⟩
+    rintro j ⟨hj, hm⟩
+    by_contra hne
+    rw [Nat.mod_eq_of_lt (by omega)] at hm
+    omega
+  · refine ⟨i - 1, ⟨by omega, by rw [show i - 1 + 1 = i by omega]; exact Nat.mod_eq_of_lt hi⟩, ?_⟩
+    rintro j ⟨hj, hm⟩
+    rcases Nat.lt_or_ge (j + 1) N with hlt | hge
+    · rw [Nat.mod_eq_of_lt hlt] at hm; omega
+    · rw [show j + 1 = N by omega, Nat.mod_self] at hm; omega
 
 /-- the pairing of the code before the repair: one pair fewer than lines, pair `j` is
 `(j+1, j+2 mod N)`; in particular line 0 is never paired with line 1. -/
@@ -278,7 +308,8 @@ theorem successive_normals_advance_by_step {α} [Field α] (start step : α) (n 
   push_cast
   ring
 
-/-- **together they cover the full circle once**: when `nDir * deg_step = 360`, one more step
+/-- (plain algebra on the closed forms `start + (k+1)·step`; the statement on the direction grid
+is `closing_pair_advances_by_step`) when `nDir * deg_step = 360`, one more step
 after the last direction is the first direction minus `2 pi`, i.e. the closing pair
 (last, first) also advances by exactly the angular step. -/
 theorem closing_advance_is_step {α} [Field α] [CharZero α] (pi deg start : α) (nDir : Nat)
@@ -297,6 +328,23 @@ theorem closing_advance_is_step {α} [Field α] [CharZero α] (pi deg start : α
     have h180 : (180 : α) ≠ 0 := by norm_num
     field_simp
     linear_combination (-pi) * hdiv
+
+/-- **the closing pair (last direction, first direction) also advances by exactly the step, on the
+grid itself**: on `dirs = oneTurn N (arangeVals … start step n)` (the list the driver computes as
+`dsAnglesF`, read over a field) with `step = -deg·π/180` and `N·deg = 360`, the last direction plus
+one step is the first direction minus `2π`. With `successive_normals_advance_by_step` (all inner
+pairs): the `N` normals advance by the step all the way round and return to the start after exactly
+one full turn. -/
+theorem closing_pair_advances_by_step {α} [Field α] [CharZero α] (pi deg start : α) (n nDir : Nat)
+    (hn : nDir + 1 ≤ n) (hpos : 0 < nDir) (hdiv : (nDir : α) * deg = 360) :
+    ∃ a b,
+      (oneTurn nDir (arangeVals (fun k : Nat => (k : α)) start (-1 * (deg * pi / 180)) n))[0]? = some a ∧
+      (oneTurn nDir (arangeVals (fun k : Nat => (k : α)) start (-1 * (deg * pi / 180)) n))[nDir - 1]?
+        = some b ∧
+      b + -1 * (deg * pi / 180) = a - 2 * pi :=
+  ⟨_, _, direction_value start _ n nDir 0 hn hpos,
+    direction_value start _ n nDir (nDir - 1) hn (by omega),
+    closing_advance_is_step pi deg start nDir hdiv⟩
 
 /-! ### the quantile: between two order statistics, a fraction alpha beyond -/
 
@@ -473,9 +521,70 @@ theorem exceed_fraction_bounds (fl : α → Nat) (half : α) (z : List α) (alph
   · linarith [hfl.2]
   · linarith [hfl.1]
 
+/-- **the headline clause, for the pipeline the driver runs** (`vertices ∘ tangentLines`, op `c03ds`):
+let `ls` be the tangent lines of the sample `pts` for the directions `angles` at level `1 - alpha`.
+Then the edge from vertex `j` to vertex `j+1 (mod N)` of `vertices ls` — for every `j < N`, the
+closing edge included — lies on the straight line with normal `(cos θ, sin θ)`,
+`θ = angles[(j+1) mod N]`, whose offset `r` along that normal is the `(1-alpha)`-quantile of the
+sample projected on the normal, and a fraction `alpha` of the sample lies beyond it: fewer than
+`(n-1)·alpha + 1` of the `n` sample points are strictly beyond, at least `(n-1)·alpha` on or beyond.
+(`hfl`: `fl` is a floor at the one index used, `(n-1)(1-alpha)`; the vertices exist iff the
+lines are not parallel, `vertex_isSome_iff`.) -/
+theorem edge_on_quantile_line (fl : α → Nat) (half : α) (cosT sinT : α → α) (pts : List (α × α))
+    (alpha : α)
+    (hfl : ((fl (((pts.length - 1 : Nat) : α) * (1 - alpha)) : Nat) : α) ≤
+        ((pts.length - 1 : Nat) : α) * (1 - alpha) ∧
+      ((pts.length - 1 : Nat) : α) * (1 - alpha) <
+        (fl (((pts.length - 1 : Nat) : α) * (1 - alpha)) : Nat) + 1)
+    (angles : List α) (ls : List (TLine α))
+    (hls : tangentLines fl (fun k : Nat => (k : α)) half cosT sinT pts (1 - alpha) angles = some ls)
+    (j : Nat) (hj : j < angles.length) (v w : α × α)
+    (hv : (vertices ls)[j]? = some (some v))
+    (hw : (vertices ls)[(j + 1) % angles.length]? = some (some w)) :
+    ∃ r, quantile7 fl (fun k : Nat => (k : α)) half
+          (proj (cosT (angles[(j + 1) % angles.length]'(Nat.mod_lt _ (by omega))))
+            (sinT (angles[(j + 1) % angles.length]'(Nat.mod_lt _ (by omega)))) pts) (1 - alpha) = some r ∧
+      cosT (angles[(j + 1) % angles.length]'(Nat.mod_lt _ (by omega))) * v.1 +
+        sinT (angles[(j + 1) % angles.length]'(Nat.mod_lt _ (by omega))) * v.2 = r ∧
+      cosT (angles[(j + 1) % angles.length]'(Nat.mod_lt _ (by omega))) * w.1 +
+        sinT (angles[(j + 1) % angles.length]'(Nat.mod_lt _ (by omega))) * w.2 = r ∧
+      ((pts.countP (fun p => decide (r <
+          p.1 * cosT (angles[(j + 1) % angles.length]'(Nat.mod_lt _ (by omega))) +
+          p.2 * sinT (angles[(j + 1) % angles.length]'(Nat.mod_lt _ (by omega))))) : Nat) : α)
+        < ((pts.length - 1 : Nat) : α) * alpha + 1 ∧
+      ((pts.length - 1 : Nat) : α) * alpha ≤
+        ((pts.countP (fun p => decide (r ≤
+          p.1 * cosT (angles[(j + 1) % angles.length]'(Nat.mod_lt _ (by omega))) +
+          p.2 * sinT (angles[(j + 1) % angles.length]'(Nat.mod_lt _ (by omega))))) : Nat) : α) := by
+  obtain ⟨hlen, hall⟩ := tangentLines_spec fl _ half cosT sinT pts (1 - alpha) angles ls hls
+  have hj' : (j + 1) % angles.length < angles.length := Nat.mod_lt _ (by omega)
+  obtain ⟨l, hl, hc, hs, hq⟩ := hall _ hj'
+  have hjl : j < ls.length := by omega
+  have hedge := edge_on_tangent_line ls j hjl v w hv (by rw [hlen]; exact hw)
+  have e : ls[(j + 1) % ls.length]'(Nat.mod_lt _ (by omega)) = l := by
+    have h2 := (List.getElem?_eq_some_iff.mp hl).2
+    rw [← h2]; exact getElem_congr_idx (by rw [hlen])
+  rw [e] at hedge
+  unfold OnLine at hedge
+  rw [hc, hs] at hedge
+  have hzlen : (proj (cosT angles[(j + 1) % angles.length]) (sinT angles[(j + 1) % angles.length]) pts).length
+      = pts.length := by simp [proj]
+  have hb := exceed_fraction_bounds fl half _ alpha l.r (by rw [hzlen]; exact hfl) hq
+  rw [hzlen] at hb
+  refine ⟨l.r, hq, hedge.1, hedge.2, ?_, ?_⟩
+  · have := hb.1
+    simp only [proj, List.countP_map] at this
+    exact this
+  · have := hb.2
+    simp only [proj, List.countP_map] at this
+    exact this
+
 omit [IsStrictOrderedRing α] in
-/-- `n = int(100 / alpha)`: the default sample size is the floor of `100 / alpha`. -/
-theorem default_n (fl : α → Nat) (alpha : α)
+/-- (definitional: the conclusion IS the hypothesis, `defaultN fl 100 alpha = fl (100/alpha)` by
+`rfl`; `defaultN` is not executed by the driver — the harness compares the number of points the
+real code draws with `int(100/alpha)`. The statement with content is `default_n_unique`.)
+`n = int(100 / alpha)`: the default sample size is the floor of `100 / alpha`. -/
+theorem default_n_trivial (fl : α → Nat) (alpha : α)
     (hfl : ((fl (100 / alpha) : Nat) : α) ≤ 100 / alpha ∧ 100 / alpha < (fl (100 / alpha) : Nat) + 1) :
     ((defaultN fl 100 alpha : Nat) : α) ≤ 100 / alpha ∧
       100 / alpha < ((defaultN fl 100 alpha : Nat) : α) + 1 := hfl
@@ -560,6 +669,24 @@ example : quantile7 (fun _ : ℚ => 0) (fun k : Nat => (k : ℚ)) (1 / 2) [3, 1]
   unfold quantile7
   simp only [hs]
   norm_num [lerp7]
+
+/-- non-vacuity of `edge_on_quantile_line`: four axis-parallel directions (labels 0..3 with a lookup
+cosine/sine), a one-point sample: the tangent lines exist, the closing edge (vertex 3 → vertex 0)
+exists, and `fl` is a floor at the index used. -/
+example :
+    let cosT : ℚ → ℚ := fun t => if t = 0 then 1 else if t = 2 then -1 else 0
+    let sinT : ℚ → ℚ := fun t => if t = 1 then 1 else if t = 3 then -1 else 0
+    tangentLines (fun _ : ℚ => 0) (fun k : Nat => (k : ℚ)) (1 / 2) cosT sinT [(1, 2)] (1 - 1 / 2) [0, 1, 2, 3]
+      = some [⟨1, 0, 1⟩, ⟨0, 1, 2⟩, ⟨-1, 0, -1⟩, ⟨0, -1, -2⟩] ∧
+    (vertices [(⟨1, 0, 1⟩ : TLine ℚ), ⟨0, 1, 2⟩, ⟨-1, 0, -1⟩, ⟨0, -1, -2⟩])[3]? = some (some (1, 2)) ∧
+    (vertices [(⟨1, 0, 1⟩ : TLine ℚ), ⟨0, 1, 2⟩, ⟨-1, 0, -1⟩, ⟨0, -1, -2⟩])[(3 + 1) % 4]? = some (some (1, 2)) ∧
+    ((((fun _ : ℚ => 0) (((([(1, 2)] : List (ℚ × ℚ)).length - 1 : Nat) : ℚ) * (1 - 1 / 2)) : Nat) : ℚ) ≤
+      ((([(1, 2)] : List (ℚ × ℚ)).length - 1 : Nat) : ℚ) * (1 - 1 / 2)) := by
+  intro cosT sinT
+  refine ⟨?_, ?_, ?_, by norm_num⟩
+  · norm_num [tangentLines, quantile7, proj, cosT, sinT]
+  · norm_num [vertices, cyclicPairs, consecPairs, interLines, lineInter]
+  · norm_num [vertices, cyclicPairs, consecPairs, interLines, lineInter]
 
 /-- `deg_step = 90`, four directions: `4 * 90 = 360`. -/
 example : ((4 : Nat) : ℚ) * 90 = 360 := by norm_num
